@@ -104,9 +104,75 @@ def free_clusters(ir):
     return sum(1 for c in range(2, min(maxc + 1, len(pf.fat))) if pf.fat[c] == 0)
 
 
+def wrapped_chain_cases(ctx):
+    """'removing entries to make room' after ENOSPC, for a file whose chain does NOT start at its lowest cluster (C09-m10: the allocation hint
+    followed only the head of a released chain): A, X written, A removed, X grown into A's clusters, the volume filled until a write is refused,
+    X removed - a write of exactly as many clusters as are free now has to succeed."""
+    for label, kw in [("build12-c14-r16", dict(ft=12, clusters=14, rootent=16, spc=1)), ("build16-c4090", dict(ft=16, clusters=4090, rootent=32, spc=1)),
+                      ("build32-c24", dict(ft=32, clusters=24, spc=1))]:
+        for lazy in (False, True):
+            img, info = fatspec.build(**kw)
+            meta = dict(source="build", **kw)
+            bpc = info["bpc"]
+            ir = ImplRun(img, encoding="ibm437", lazy_load=lazy)
+            done = []
+
+            def do(op):
+                r, _ = ir.op(op)
+                done.append(op if op[0] != "write" else ["write", op[1], f"<{len(op[2]) // 2} bytes>"])
+                return r
+            with ScriptedClock():
+                if ir.mount()[0][0] != "ok":
+                    continue
+                ctx.evaluations += 1
+                big = kw["clusters"] > 1000
+                for nm, h, mode, k, ch in [("/A.BIN", "a", "w", 3, b"a"), ("/X.BIN", "x", "w", 2, b"x")]:
+                    do(["open", h, nm, mode]); do(["write", h, (ch * (k * bpc)).hex()]); do(["hclose", h])
+                do(["remove", "/A.BIN"])
+                do(["open", "x2", "/X.BIN", "a"]); do(["write", "x2", (b"y" * (3 * bpc)).hex()]); do(["hclose", "x2"])
+                do(["create", "/NEW.BIN"])
+                do(["open", "f", "/FILL.BIN", "w"])
+                if big:
+                    do(["write", "f", (b"f" * ((free_clusters(ir) - 1) * bpc)).hex()])
+                r = ("ok", None)
+                for _ in range(64):
+                    w0 = ir.walk()
+                    before, before_img = tree_sig(w0), ir.dev.volume()
+                    op = ["write", "f", (b"f" * bpc).hex()]
+                    r = do(op)
+                    if r[0] != "ok":
+                        break
+                do(["hclose", "f"])
+                if r[0] == "ok":
+                    ctx.tie_break(f"{label}: the volume never became full", dict(volume=meta))
+                    continue
+                ctx.nontrivial.add((label, "write", str(r[1]), 0))
+                rep = dict(volume=meta, ops=done[-24:])
+                r1 = do(["remove", "/X.BIN"])
+                free = free_clusters(ir)
+                r2 = do(["open", "n", "/NEW.BIN", "r+"])
+                r3 = do(["write", "n", (b"n" * (free * bpc)).hex()]) if r2[0] == "ok" else ("skip", None)
+                do(["hclose", "n"])
+                if r1[0] != "ok" or r2[0] != "ok" or r3[0] != "ok":
+                    ctx.violation(f"{label}: the volume was full (write refused: {r[1]}); after removing /X.BIN (5 clusters, chain not starting at its lowest cluster) "
+                                  f"{free} clusters are free, but a write of {free} clusters does not succeed: {r1} {r2} {r3}",
+                                  f"followup-refused:room-made:{r3[1]}", dict(rep, ops=done[-28:]))
+                    continue
+                got = ir.op(["readbytes", "/NEW.BIN"])[0]
+                if got[0] != "ok" or got[1] != b"n" * (free * bpc):
+                    ctx.violation(f"{label}: /NEW.BIN written into the room made does not read back ({got[0]})", "followup-readback:room-made", rep)
+                    continue
+                ir.op(["closefs"])
+                fnd = fatspec.fsck(ir.dev.volume(), img, "ibm437", force_ft=history.force_ft(meta))
+                if fnd:
+                    ctx.violation(f"{label}: closed image after refilling the room made is inconsistent: {fnd[0]}", "final-fsck:" + history.classify_finding(fnd[0]),
+                                  dict(rep, findings=fnd[:6]))
+
+
 def run(ctx):
     rng = ctx.rng
     n = 0
+    wrapped_chain_cases(ctx)
     vols = [("build12-c14-r16", dict(ft=12, clusters=14, rootent=16, spc=1)), ("build12-c20-r32-spc2", dict(ft=12, clusters=20, rootent=32, spc=2)),
             ("build16-tinyroot", dict(ft=16, clusters=4090, rootent=16, spc=1)), ("build32-c24", dict(ft=32, clusters=24, spc=1))]
     for rep in range(ctx.scale(3, 30)):
